@@ -43,7 +43,8 @@ def configs(tier, seed):
     # extended_prec indicator exactly when n_word >= 64 (after construction, after resize in both directions, after reset)
     for n in (1, 8, 32, 52, 53, 62, 63, 64, 65, 66, 100, 128, 256):
         for s in (True, False):
-            out.append(dict(part='extprec', signed=s, n_word=n, n_frac=rng.choice((0, 1, n // 2))))
+            for f in sorted(set((0, 1, n // 2))):
+                out.append(dict(part='extprec', signed=s, n_word=n, n_frac=f))
     # strings in raw mode and rendering: C11's harness on wide words
     for n in ((64,) if tier == 'quick' else (64, 65, 66, 72, 96, 127, 128, 129, 200, 256)):
         for s in (True, False):
